@@ -21,6 +21,9 @@ type Case struct {
 	Key      string   `json:"key"`
 	Paths    []string `json:"paths"`
 	Accepts  []string `json:"accepts"`
+	// Sib: a second pair of matchers in the same process, with another version list, Accept key and parameter
+	// name; it is asked about every path / header just before the subject is, and judged the same way
+	Sib *Case `json:"sib,omitempty"`
 }
 
 var (
@@ -52,6 +55,22 @@ func gen(t *rapid.T) Case {
 	if key == "" {
 		key = "version"
 	}
+	sibKey := ""
+	if rapid.IntRange(0, 2).Draw(t, "sib") == 0 {
+		sb := &Case{Param: rapid.SampledFrom([]string{"ver", "sv", ""}).Draw(t, "sibParam")}
+		for _, v := range rapid.SliceOfNDistinct(rapid.SampledFrom(names), 1, 3, rapid.ID[string]).Draw(t, "sibVersions") {
+			sb.Versions = append(sb.Versions, decorate(t, v))
+		}
+		var others []string
+		for _, k := range []string{"version", "v", "api"} {
+			if k != key {
+				others = append(others, k)
+			}
+		}
+		sb.Key = rapid.SampledFrom(others).Draw(t, "sibKey")
+		sibKey = sb.Key
+		c.Sib = sb
+	}
 	for i, n := 0, rapid.IntRange(1, 6).Draw(t, "npaths"); i < n; i++ {
 		var p string
 		switch rapid.IntRange(0, 9).Draw(t, "pmode") {
@@ -81,6 +100,10 @@ func gen(t *rapid.T) Case {
 			a = rapid.SampledFrom(mtypes).Draw(t, "mtype") + rapid.SampledFrom([]string{"; ", ";", " ; "}).Draw(t, "sep") + k + "=" + v
 			if rapid.Bool().Draw(t, "more") {
 				a += "; charset=utf-8"
+			}
+			if sibKey != "" && rapid.Bool().Draw(t, "sibToo") {
+				// the sibling's key in the same header, with a value of its own
+				a += "; " + sibKey + "=" + rapid.SampledFrom(append(append([]string{}, c.Sib.Versions...), "v9", "v1", "1.0")).Draw(t, "sibVal")
 			}
 			switch rapid.IntRange(0, 7).Draw(t, "comma") {
 			case 0:
@@ -117,13 +140,70 @@ func snapshot(ctx *types.Context) map[string]string {
 func check(c Case, st *rig.Stats) error {
 	nontriv := false
 	var classes []string
-	pv := mux.NewPathVersion(c.Param, append([]string{}, c.Versions...)...)
-	hv := mux.NewHeaderVersion(c.Param, c.Key, func(error) {}, append([]string{}, c.Versions...)...)
-	key := c.Key
-	if key == "" {
-		key = "version"
+	if c.Sib != nil {
+		classes = append(classes, "sibling-matchers-asked-first")
+		sb := *c.Sib
+		sb.Paths, sb.Accepts, sb.Sib = c.Paths, c.Accepts, nil
+		subject := c
+		subject.Sib = nil
+		// interleaved: for every input the sibling first, then the subject - both on long-lived matcher objects
+		sm, cm := newMatchers(sb), newMatchers(subject)
+		for i := range c.Paths {
+			if err := sm.path(c.Paths[i], &nontriv, &classes); err != nil {
+				return err
+			}
+			if err := cm.path(c.Paths[i], &nontriv, &classes); err != nil {
+				return err
+			}
+		}
+		for i := range c.Accepts {
+			if err := sm.accept(c.Accepts[i], &nontriv, &classes); err != nil {
+				return err
+			}
+			if err := cm.accept(c.Accepts[i], &nontriv, &classes); err != nil {
+				return err
+			}
+		}
+		st.Eval(c, nontriv, classes...)
+		return nil
 	}
+	m := newMatchers(c)
 	for _, path := range c.Paths {
+		if err := m.path(path, &nontriv, &classes); err != nil {
+			return err
+		}
+	}
+	for _, acc := range c.Accepts {
+		if err := m.accept(acc, &nontriv, &classes); err != nil {
+			return err
+		}
+	}
+	st.Eval(c, nontriv, classes...)
+	return nil
+}
+
+type matchers struct {
+	c   Case
+	pv  mux.Matcher
+	hv  mux.Matcher
+	key string
+}
+
+func newMatchers(c Case) *matchers {
+	m := &matchers{c: c, key: c.Key}
+	m.pv = mux.NewPathVersion(c.Param, append([]string{}, c.Versions...)...)
+	m.hv = mux.NewHeaderVersion(c.Param, c.Key, func(error) {}, append([]string{}, c.Versions...)...)
+	if m.key == "" {
+		m.key = "version"
+	}
+	return m
+}
+
+func (m *matchers) path(path string, nontrivp *bool, classesp *[]string) error {
+	c, pv := m.c, m.pv
+	nontriv, classes := *nontrivp, *classesp
+	defer func() { *nontrivp, *classesp = nontriv, classes }()
+	{
 		// reference
 		want, wantPath, wantParam := false, path, ""
 		for _, v := range c.Versions {
@@ -167,7 +247,14 @@ func check(c Case, st *rig.Stats) error {
 			classes = append(classes, "path-rejected")
 		}
 	}
-	for _, acc := range c.Accepts {
+	return nil
+}
+
+func (m *matchers) accept(acc string, nontrivp *bool, classesp *[]string) error {
+	c, hv, key := m.c, m.hv, m.key
+	nontriv, classes := *nontrivp, *classesp
+	defer func() { *nontrivp, *classesp = nontriv, classes }()
+	{
 		want, wantVer := false, ""
 		if acc != "" {
 			if _, ps, err := mime.ParseMediaType(acc); err == nil {
@@ -211,7 +298,6 @@ func check(c Case, st *rig.Stats) error {
 			classes = append(classes, "header-rejected")
 		}
 	}
-	st.Eval(c, nontriv, classes...)
 	return nil
 }
 
